@@ -39,15 +39,17 @@ ASSUMPTIONS = [
     "scipy is absent in this sandbox: the fftpack branches of both computers never run",
     "signal dtypes are float32 and float64 only",
     "round-off tolerance: linear-domain |a-b| <= r*max(|a|,|b|) + s*max|F|, (r,s)=(1e-7,1e-10) for float64, (1e-4,1e-5) for float32",
-    "the caller does not reuse a chunk buffer after compute_chunk returns (not promised by the statement)",
+    "a source may recycle its chunk buffer as soon as compute_chunk has returned (memory kind 'scratch'): a streaming "
+    "computer must have copied what it still needs - the unchanged tree does",
     "sampling, not proof: a clean batch is evidence for the explored schedules only",
 ]
 PROBES = [
     "first_frame_split", "stft_zero_frame_deliveries_ge3", "finalize_pad_exceeds_remainder", "n_in_short_gap",
     "si_multi_block_delivery", "si_sub_block_delivery", "si_skip_across_deliveries", "empty_first", "empty_last",
-    "n_zero", "no_deliveries", "long_recording",
+    "n_zero", "no_deliveries", "long_recording", "whole_signal_strided",
 ]
-FAULT_KINDS = ["empty_delivery", "single_sample_delivery", "readonly_delivery", "strided_delivery"]
+FAULT_KINDS = ["empty_delivery", "single_sample_delivery", "readonly_delivery", "strided_delivery",
+               "recycled_buffer_delivery"]
 
 
 def warmup(tier=None):
@@ -103,7 +105,8 @@ def generate(rng, tier, k):
     fbf = [int(rng.choice((1, 2, 3, 5, 7, 13, S, L, max(1, S - 1), L + 1, 97, 1024))) for _ in range(nf)]
     # keep a chunk_size of 1 for long signals out (cost), the delivery schedule covers it
     fbf = [c if (n // max(1, c)) <= 400 else max(c, n // 400 + 1) for c in fbf]
-    return {"cfg": cfg, "signal": sig, "deliveries": dl, "fbf_sizes": fbf, "discarded_configs": discarded}
+    return {"cfg": cfg, "signal": sig, "deliveries": dl, "fbf_sizes": fbf, "discarded_configs": discarded,
+            "full_strided": rng.random() < 0.15}
 
 
 def _tol(dtype):
@@ -213,7 +216,15 @@ def execute(scn, keep_trace=False):
                  short_gap=bool(S // 2 <= n < L // 2 + 1))
     tr.log("cfg", L, S, ncoef, n, dtype)
 
-    # oracle side
+    # oracle side (the whole signal may itself be a non-contiguous view, e.g. one channel of an interleaved recording)
+    if scn.get("full_strided"):
+        res.probe("whole_signal_strided")
+        y = np.empty((n, 3), dtype=x.dtype)
+        y[:, 1] = x
+        y[:, 0] = -1.5
+        y[:, 2] = 9.25
+        xro = y[:, 1]
+        xro.flags.writeable = False
     try:
         F = twin.compute_full(xro)
     except Exception as e:
@@ -259,6 +270,8 @@ def execute(scn, keep_trace=False):
             res.fault("readonly_delivery")
         elif mem == "strided":
             res.fault("strided_delivery")
+        elif mem == "scratch":
+            res.fault("recycled_buffer_delivery")
         try:
             skip_before = getattr(comp, "_skip", 0)
         except Exception:
@@ -271,6 +284,7 @@ def execute(scn, keep_trace=False):
             tr.log("chunk_raises", i, e)
             failed = True
             break
+        source.recycle(ch, mem)
         a += ln
         tr.log("chunk", i, ln, out)
         if not isinstance(out, np.ndarray) or out.ndim != 2 or out.shape[1] != ncoef:
